@@ -7,6 +7,11 @@
 // last instant of the retention) is announced with UpdatePeer on an empty
 // store and read back with GetPeers. Oracle: exactly the announced
 // (id, address, port, complete) comes back.
+//
+// E3 (hist.go): every history of announcements (torrent x peer x completion
+// flag) and clock advances across peer-set window boundaries on one long-lived
+// store, read back after every step under every window visiting order and
+// SRANDMEMBER reply order (own.go owns both random answers).
 package main
 
 import (
@@ -100,6 +105,7 @@ const (
 
 type env struct {
 	run *evid.Run
+	own *owner
 	mr  *miniredis.Miniredis
 	clk *vclock
 	st  *peerstore.RedisStore
@@ -204,32 +210,72 @@ func kindOf(p *core.PeerInfo, dflt string) string {
 	return dflt
 }
 
-func (e *env) roundTrip(c tcase, id core.PeerID) bool {
+// getPeers looks h up once per window visiting order (allOrders) or once with
+// the default answers; f sees every result and stops the enumeration by
+// returning false.
+func (e *env) getPeers(n int, allOrders bool, what string, f func(got []*core.PeerInfo, answers string) bool) {
+	one := func(ch *chooser) (ok bool) {
+		var got []*core.PeerInfo
+		err := e.own.with(ch, func() (err error) {
+			got, err = e.st.GetPeers(e.h, n)
+			return err
+		})
+		if err != nil {
+			e.run.Fatal(fmt.Errorf("GetPeers(%s): %v", what, err))
+		}
+		e.run.Eval(1)
+		return f(got, ch.String())
+	}
+	if !allOrders {
+		one(&chooser{})
+		return
+	}
+	stop := fmt.Errorf("stop")
+	if _, err := everyAnswer(0, func(ch *chooser) error {
+		if !one(ch) {
+			return stop
+		}
+		return nil
+	}); err != nil && err != stop {
+		e.run.Fatal(err)
+	}
+}
+
+func (e *env) roundTrip(c tcase, id core.PeerID, allOrders bool) bool {
 	e.reset(c.Offset)
 	p := core.NewPeerInfo(id, c.IP, c.Port, false, c.Complete)
 	if err := e.st.UpdatePeer(e.h, p); err != nil {
 		e.run.Fatal(fmt.Errorf("UpdatePeer(%+v): %v", c, err))
 	}
 	e.later(c.Delay)
-	got, err := e.st.GetPeers(e.h, c.N)
-	if err != nil {
-		e.run.Fatal(fmt.Errorf("GetPeers(%+v): %v", c, err))
-	}
-	e.run.Eval(1)
 	e.run.Distinct(fmt.Sprintf("%s|%s|%d|%v", c.ID, c.IP, c.Port, c.Complete))
 	when := ""
 	if c.Delay > 0 {
 		when = " by a lookup later in the retention of its window"
 	}
-	return e.compare(c.Kind, when, []*core.PeerInfo{p}, got, map[string]interface{}{"case": c})
+	ok := true
+	e.getPeers(c.N, allOrders, fmt.Sprintf("%+v", c), func(got []*core.PeerInfo, answers string) bool {
+		ok = e.compare(c.Kind, when, []*core.PeerInfo{p}, got, map[string]interface{}{"case": c, "answers": answers})
+		return ok
+	})
+	return ok
 }
 
 func main() {
+	installOwnership()
 	run := evid.New("C28", "exploration")
-	run.Rule = "full product of peer ids x address strings (IPv4, IPv6 plain / zone / bracketed, host names) x ports x completion flag x announce position in the peer-set window x lookup delay (0 .. last second of the retention) x n in {1, 50}: each peer is announced with UpdatePeer on an emptied in-process Redis and read back with GetPeers; plus sets of several peers that differ in one component only. distinct = distinct announced (id, address, port, complete) tuples (each serialises to a different Redis member); every case is non-trivial (a real TCP round trip through SADD/EXPIREAT/SRANDMEMBER)."
-	run.Assume("miniredis v2.5.0 implements SADD/EXPIREAT/SRANDMEMBER like Redis; its time is slaved to the store's explicit clock (SetTime/FastForward)")
+	if err := ownershipSelfTest(); err != nil {
+		run.Fatal(err)
+	}
+	run.Rule = "(1) inputs: full product of peer ids x address strings (IPv4, IPv6 plain / zone / bracketed, host names) x ports x completion flag x announce position in the peer-set window x n: each peer is announced with UpdatePeer on an emptied in-process Redis and read back with GetPeers; lookups 1 s / one window / the last second of the retention later and sets of peers that differ in one component only (spread over the windows) are read back under EVERY order in which GetPeers can visit the windows. " +
+		"(2) histories (explicit-state BFS, every history up to the depth bound, on one long-lived RedisStore): alphabet UpdatePeer(torrent, peer, complete) for every torrent x peer (an IPv4, an IPv6 and a host-name peer) x flag (complete -> incomplete only after the peer's earlier announcements left the retention), advance the clock to the first second of the next window, advance it to the last second of the current window; after every step every torrent is read back with GetPeers(n) for every n of the configuration under every answer of the two random sources: every window visiting order (all draws of randutil.ShuffleInt64s) x, for every SRANDMEMBER reply, ascending and descending member order (thorough: every permutation of replies of <= 3 members). Oracle for a lookup with n larger than the number of stored members: exactly the peers with an announcement inside the retention (MaxPeerSetWindows windows) come back, each with its id, address, port and the completion flag of its latest announcement, and no peer that did not announce for that torrent; for smaller n every returned peer must carry its id, address, port and a flag it announced for that torrent inside the retention. " +
+		"distinct = distinct announced (id, address, port, complete) tuples of (1) + distinct (model state, Redis contents) states of (2), torrents renamed canonically; every case is non-trivial (real TCP round trips through SADD/EXPIREAT/SRANDMEMBER)."
+	run.Assume("miniredis v2.5.0 implements SADD/EXPIREAT/SRANDMEMBER like Redis; its time is slaved to the store's explicit clock (SetTime/FastForward); the order of the members in a SRANDMEMBER reply is an answer of the environment that the check enumerates (a copy of miniredis' cmd_set.go with a hook in place of its math/rand shuffle is put in place by go build -overlay)")
+	run.Assume("math/rand in utils/randutil and tracker/peerstore is rewritten to verif/shim/vrand by the build overlay: every draw of the window shuffle is answered by the check and all answer vectors are enumerated")
 	run.Assume("domain: peers that can announce (core.NewPeerContext rejects an empty ip and port 0); addresses are syntactically valid IPv4/IPv6 literals (plain, zoned, bracketed) and host names")
-	run.Assume("one announcement per peer identity and torrent (re-announcing with a different completion flag is outside the statement)")
+	run.Assume("completion is monotone while the store still holds an announcement of the peer for the torrent (incomplete ... incomplete, complete ... complete): the flag 'it announced' is then the flag of its latest announcement; a complete -> incomplete re-announcement inside the retention is outside the statement")
+	run.Assume("a lookup whose n does not exceed the number of stored members of the torrent reads a sample chosen by the store (the statement does not mention n): for it only identity, address, port and 'a flag the peer announced inside the retention' are checked; how often it returns the flag of an earlier announcement is counted (history_truncated_lookups_returning_an_earlier_flag; the TODO in GetPeers documents this limitation)")
+	run.Assume("small scope of the histories: <= 2 torrents, <= 3 peers, 2..4 windows, clock positions first / last second of a window, history depth <= 6 (thorough 6..7); quick: {2 windows, 2 torrents, 1 peer} and {3 windows, 1 torrent, 2 peers}, thorough: {2 windows, 2 torrents, 2 peers}, {4 windows, 1 torrent, 2 peers}, {3 windows, 1 torrent, 3 peers}, {3 windows, 2 torrents, 2 peers}")
 
 	mr, err := miniredis.Run()
 	if err != nil {
@@ -246,7 +292,7 @@ func main() {
 	if err != nil {
 		run.Fatal(err)
 	}
-	e := &env{run: run, mr: mr, clk: clk, st: st, h: core.NewInfoHashFromBytes([]byte("c28"))}
+	e := &env{run: run, own: newOwner(mr), mr: mr, clk: clk, st: st, h: core.NewInfoHashFromBytes([]byte("c28"))}
 
 	th := run.Thorough()
 	as := addrs(th)
@@ -279,7 +325,7 @@ func main() {
 						for _, d := range delays {
 							for _, n := range ns {
 								c := tcase{ID: id.String(), IP: a.s, Kind: a.kind, Port: port, Complete: complete, Offset: off, Delay: d, N: n}
-								if !e.roundTrip(c, id) {
+								if !e.roundTrip(c, id, false) {
 									broken[a.s] = true
 									failing++
 								}
@@ -321,7 +367,7 @@ func main() {
 					d = maxWindows*windowS - 1 - off // last second before the key expires
 				}
 				c := tcase{ID: ids[2].String(), IP: a.s, Kind: a.kind, Port: 6881, Complete: off == 0, Offset: off, Delay: d, N: 50}
-				e.roundTrip(c, ids[2])
+				e.roundTrip(c, ids[2], true) // under every window visiting order
 				kinds["late lookup"]++
 			}
 		}
@@ -360,15 +406,14 @@ func main() {
 				advances++
 			}
 		}
-		got, err := st.GetPeers(e.h, 2*len(s.peers))
-		if err != nil {
-			run.Fatal(fmt.Errorf("GetPeers(set %s): %v", s.name, err))
-		}
-		run.Eval(1)
 		run.Distinct("set|" + s.name)
 		kinds["peer sets"]++
-		e.compare("set", " from a set of peers spread over the retention", s.peers, got, map[string]interface{}{"set": s.name})
+		e.getPeers(2*len(s.peers), true, "set "+s.name, func(got []*core.PeerInfo, answers string) bool {
+			return e.compare("set", " from a set of peers spread over the retention", s.peers, got, map[string]interface{}{"set": s.name, "answers": answers})
+		})
 	}
+	e.own.release()
+	histories(run)
 	run.Set("cases_by_address_kind", kinds)
 	run.Set("address_strings", nAddrs)
 	run.Set("peer_ids", len(ids))
